@@ -291,6 +291,15 @@ def check_bin_script(spec, ctx):
             zt = fggs.sum_product(fgg, method='fixed-point', semiring=fggs.RealSemiring(dtype=torch.float64), tol=1e-10, kmax=2000).to_dense()
             z0 = zt.detach().reshape(-1).tolist()
         differentiable = bool(zt.requires_grad)     # the script's -G path calls backward() unconditionally
+        # -o <out_weights>: the cotangent of the gradient (documented for -g/-G/-e); every other batch uses it
+        nstart = int(zt.numel())
+        use_o = (len(spec['rules']) + nstart) % 2 == 0
+        ow = [0.5 + 0.25 * ((3 * i + 1) % 5) for i in range(nstart)]
+        g0 = None
+        if differentiable:
+            cot = torch.tensor(ow, dtype=torch.float64).reshape(zt.shape) if use_o else torch.ones_like(zt)
+            (zt * cot).sum().backward()
+            g0 = {n: (f_.weights.grad.reshape(-1).tolist() if f_.weights.grad is not None else None) for n, f_ in fgg.factors.items()}
     except Exception as e:
         ctx.violation('bin-setup-failed', f'{type(e).__name__}: {e}'); return
     finally:
@@ -303,6 +312,8 @@ def check_bin_script(spec, ctx):
         for method in ('fixed-point', 'newton'):
             for flag in ('', '-O', '-OO'):
                 cmd = [sys.executable] + ([flag] if flag else []) + [script, path, '-m', method, '-l', '1e-10', '-k', '2000', '-d'] + (['-G'] if fgg.factors else [])
+                if use_o and fgg.factors:
+                    cmd += ['-o', json.dumps(np.asarray(ow).reshape(tuple(zt.shape)).tolist())]
                 p = subprocess.run(cmd, env=env, cwd=d, capture_output=True, text=True, timeout=300)
                 outs[(method, flag)] = (p.returncode, p.stdout.strip())
     ctx.label('bin-script')
@@ -319,6 +330,21 @@ def check_bin_script(spec, ctx):
                 ctx.violation('bin-output-unparsable', f'{base[1][:200]}'); continue
             ok = len(zf) == len(z0) and all(abs(a - b) <= 1e-6 * (1 + abs(b)) or (a == b) for a, b in zip(zf, z0))
             ctx.require(ok, 'bin-value-differs', f'bin/sum_product.py -m {method} prints {zf}, in-process sum_product gives {z0}')
+            # gradient lines "grad[name]: <nested list>" against the in-process gradient with the same cotangent
+            if g0 is not None and fgg.factors:
+                ctx.label('bin-script-out-weights' if use_o else 'bin-script-grad')
+                printed = {}
+                for line in base[1].splitlines()[1:]:
+                    if line.startswith('grad[') and ']: ' in line:
+                        name, val = line[5:].split(']: ', 1)
+                        try: printed[name] = np.asarray(json.loads(val), dtype=float).reshape(-1).tolist()
+                        except Exception: printed[name] = 'unparsable'
+                for n, want in g0.items():
+                    got = printed.get(n)
+                    if want is None:
+                        continue      # the factor cannot influence Z: the script prints zeros or nothing
+                    okg = isinstance(got, list) and len(got) == len(want) and all(b != b or abs(a - b) <= 1e-5 * (1 + abs(b)) for a, b in zip(got, want))   # NaN = element outside a patterned weight's support (no parameter there)
+                    ctx.require(okg, 'bin-gradient-differs', f'bin/sum_product.py -m {method}{" -o" if use_o else ""}: grad[{n}] printed {got}, in-process {want}')
 
 
 def close_lists(a, b):
